@@ -22,6 +22,7 @@ static std::string gen_message(Rng &r, const Cfg &c, std::string &desc)
     int k = (int)r.below(12);
     if(k == 0) { int v = (int)r.range(-20, 150); rtosc_message(buf, sizeof buf, "/vol", "i", v); desc = fmt("/vol %d", v); }
     else if(k == 1) { int v = (int)r.range(-9, 9); rtosc_message(buf, sizeof buf, "/mid/x", "i", v); desc = fmt("/mid/x %d", v); }
+    else if(k == 2 && c.en_is_int) { static const int LV[] = {0, 0, 0, 1, 2, 255, 256, 512, -256, 65536, -1}; int v = LV[r.below(11)]; std::string a = "/mid/" + c.en_name; rtosc_message(buf, sizeof buf, a.c_str(), "i", v); desc = a + fmt(" %d", v); }
     else if(k == 2) { bool v = r.chance(0.5); std::string a = "/mid/" + c.en_name; rtosc_message(buf, sizeof buf, a.c_str(), v ? "T" : "F"); desc = a + (v ? " T" : " F"); }
     else {
         const LeafCfg &L = c.leaf;
@@ -52,7 +53,7 @@ struct Quiet : rtosc::RtData {
 
 static bool leaf_enabled(const Root &r, const Cfg &c)
 {
-    if(c.enable_placement == 1) return r.mid.en;
+    if(c.enable_placement == 1) return r.mid.en != 0;
     return true;
 }
 
@@ -179,7 +180,7 @@ static std::string cfg_desc(const Cfg &c)
 {
     std::string s = "leaf ports:";
     for(auto &n : c.leaf.order) s += " " + n;
-    s += fmt(" | a_dep=%d b_dep=%d arr_dep=%d enable_placement=%d many=%d ptr=%d%s top=%d toggle=%s val=%s", c.leaf.a_depends, c.leaf.b_depends, c.leaf.arr_depends, c.enable_placement, c.has_many, c.has_ptr, c.ptr_gated ? "(gated)" : "", c.has_top, c.en_name.c_str(), c.leaf.val_name.c_str());
+    s += fmt(" | a_dep=%d b_dep=%d arr_dep=%d enable_placement=%d many=%d ptr=%d%s top=%d toggle=%s%s val=%s", c.leaf.a_depends, c.leaf.b_depends, c.leaf.arr_depends, c.enable_placement, c.has_many, c.has_ptr, c.ptr_gated ? "(gated)" : "", c.has_top, c.en_name.c_str(), c.en_is_int ? "(int)" : "", c.leaf.val_name.c_str());
     return s;
 }
 
